@@ -291,7 +291,7 @@ def run_req(d):
         c.env, c.mon, c.busy, c.quiet = e
 
     ex = core.Explorer(mk, lambda c: req_choices(d, c.env), check, step=req_step, extra_state=get_extra, set_extra=set_extra,
-                       max_states=6000000, validate_every=997, monitor_widths=False)
+                       max_states=2000000 if d['ncmd'] is None else 3000000, validate_every=997, monitor_widths=False)
     ex.run()
     res = {'configs': 1, 'states': ex.states, 'transitions': ex.transitions, 'traces_validated_against_impl': ex.validated,
            'capped': ex.capped, 'closed_graphs': 1 if ex.closed else 0, 'evaluations': stats['issued'],
